@@ -21,7 +21,7 @@ H_FIELDS = {
     'request': Ref, 'sock': Ref, 'chunked': Bool, '_body': Ref, 'done': Bool, 'close': Bool, 'stream': Bool, 'method': Str,
     '_clients': Dict(Ref, Tup(Ref, Ref)), '_buffers': Dict(Ref, Ref), '_encoding': Str, '_server': Ref, 'headers': Ref,
     'G_body_list': List(Bytes), 'G_body_kind': Int, 'protocol': Str, 'r_protocol': Tup(Int, Int), 'encoding': Str, 'server': Ref, '_status': Int,
-    'cookie': Ref, 'secure': Bool,
+    'cookie': Ref, 'secure': Bool, 'G_last_chunk': Bytes,      # ghost: the value next(res.body) returned last
 }
 
 
@@ -80,6 +80,9 @@ def s_next_body(I, recv, args, kw):
         lib.raise_(I, 'StopIteration')
     t = core.fresh('chunk', S())
     log(I, 'CHUNKS').append(t)
+    res = I.local('res') if I.frame.has('res') else None
+    if isinstance(res, VRef) and 'G_last_chunk' in I.st.fields:
+        I.st.write_field(res.t, 'G_last_chunk', VStr(t, True))
     return VStr(t, True)
 
 
@@ -129,9 +132,15 @@ def os_post(I, outcome, ctx):
             framed = z3.Concat(ENC(HEX(z3.Length(d))), CRLF, d, CRLF)
             I.oblige('chunk.framing', wire[0].t == z3.If(chunked, framed, d),
                      detail='chunked: hex(len) CRLF data CRLF; otherwise the raw bytes')
+        chunks = log(I, 'CHUNKS')
         for s_ in streams:
             nxt = s_.args[1]
             cover(I, 'next')
+            # each piece of the body is written exactly once: what is handed on is what the body iterator produced AFTER this
+            # piece (or the end marker), never the piece just written
+            I.oblige('chunk.follow_up_carries_the_next_piece_of_the_body',
+                     z3.BoolVal(True) if isinstance(nxt, VNone) else (z3.BoolVal(False) if not chunks else nxt.t == I.fz(res, 'G_last_chunk')),
+                     detail='the stream event fired after a write must carry the value next(res.body) returned last (pieces fetched: %d)' % len(chunks))
             I.oblige('chunk.next_chunk_is_nonempty_or_end', z3.BoolVal(isinstance(nxt, VNone)) if isinstance(nxt, VNone) else z3.Length(nxt.t) > 0,
                      detail='stream.requires.nonempty: empty strings yielded by the body are skipped')
         I.oblige('chunk.at_most_one_follow_up', z3.BoolVal(len(streams) <= 1))
@@ -144,13 +153,18 @@ del STREAM_CALLS['hex']
 
 
 def while_skip_inv(I):
+    # the skip loop only ever holds what the body iterator returned last
+    d = I.local('data')
+    res = I.local('res')
+    if isinstance(d, VStr) and 'G_last_chunk' in I.st.fields:
+        return d.t == I.fz(res, 'G_last_chunk')
     return z3.BoolVal(True)
 
 
 SPECS.append(FucSpec(
     'C15', HTTP, 'HTTP._on_stream', os_setup, os_post, fields=H_FIELDS, calls=STREAM_CALLS,
     attr_hooks={'res.body': lambda I: BodyIter()},
-    loops={0: LoopSpec(inv=[('true', while_skip_inv)], kinds={'data': Bytes})}, cover=['return', 'chunk', 'end_of_stream', 'next'],
+    loops={0: LoopSpec(inv=[('data_is_the_piece_fetched_last', while_skip_inv)], kinds={'data': Bytes}, havoc_fields=['G_last_chunk'])}, cover=['return', 'chunk', 'end_of_stream', 'next'],
     clause='_on_stream: a data chunk is written as hex(len) CRLF data CRLF when chunked (raw otherwise) and the next non-empty chunk '
            '(or the end) is scheduled; the end writes the terminator iff chunked, closes iff announced, marks the response done and '
            'releases the client entry'))
